@@ -7,7 +7,15 @@ from .. import kj, presv
 from ..check import VERIF, unjson
 from ..kj import preservative, read_tree, scratch, splice, splitlines_keep, tabnorm, tag_pairs, write_tree
 
+from ..manifest_data import PRES_NOTE  # noqa: E402
+
 LEVEL = "proof"
+
+MANIFEST = {
+    "technique": 'Coq proof (induction over file items / regenerations) + differential correspondence model vs code',
+    "text": 'Theorems C01_fixed_point / C01_iterated / C01_tree_fixed_point: for every fresh code model satisfying the boolean well-formedness, every user text and every number of regenerations the model of preserve+createoutput rewrites identical bytes. The model is executed against the real generators on every run.',
+    "note": PRES_NOTE,
+}
 RULE = ("cases = (generator kind, random valid model, random subset of the tag pairs of every generated file filled with user text "
         "from the grammar of harness/kj.user_line, 2..3 regenerations); each case is run on the real generators, compared with the "
         "extracted Coq model (regen) and with the splice oracle; function-level cases compare CleanUpLine/CollectFile/Emplace with "
